@@ -1,11 +1,19 @@
 import QibModel.Qubitization
 import QibGen.GatesReal
 import QibProofs.Lemmas.GateAlgebra
+import QibProofs.Lemmas.QubitizationAct
+import QibProofs.Lemmas.QubitizationEvt
+import QibProofs.Lemmas.QubitizationMat
+import Mathlib.Algebra.FreeMonoid.Basic
 import Mathlib.Tactic.Ring
 import Mathlib.Tactic.FieldSimp
 import Mathlib.Tactic.Linarith
 /-!
 C19 — Qubitization circuits equal their defining phase-shift / alternating products (property theorems).
+
+Model: `QibModel/Qubitization.lean` (executed by `drv_qubitization`, tied to the code by `harness/props/c19.py`):
+`Pcps.asCircuit` (gate lists of both constructions), `pcpsMatrixDiag`, `GateDesc.act`/`circuitAct` (what the emitted gates
+do to basis states), `evtMatrix`/`evtCircuit` (the loops of `EigenvalueTransformation`), `evtSpec` (the defining product).
 -/
 open Matrix NormedSpace Complex QibGen Qib.GateAlgebra Qib.Qubitization
 
@@ -16,18 +24,27 @@ namespace Qib.C19
 section PhaseShift
 variable {κ : Type} [Fintype κ] [DecidableEq κ]
 
-/-- the reflection `2|0⟩⟨0| − 1` about the projection state `k0` -/
-def refl (k0 : κ) : Matrix κ κ ℂ := Matrix.diagonal fun k => if k = k0 then 1 else -1
+/-- the reflection `2P − 1` about the span of the basis states selected by `p` (`P` = projector onto them);
+for `p = (· = k0)` this is `2|k0⟩⟨k0| − 1` -/
+def refl (p : κ → Prop) [DecidablePred p] : Matrix κ κ ℂ := Matrix.diagonal fun k => if p k then 1 else -1
 
-theorem refl_sq (k0 : κ) : refl k0 * refl k0 = 1 := by
+theorem refl_eq_two_proj_sub_one (p : κ → Prop) [DecidablePred p] :
+    refl p = (2 : ℂ) • (Matrix.diagonal fun k => if p k then (1 : ℂ) else 0) - 1 := by
+  ext i j
+  by_cases h : i = j
+  · subst h
+    by_cases hp : p i <;> simp [refl, Matrix.diagonal, hp] <;> norm_num
+  · simp [refl, Matrix.diagonal, Matrix.one_apply, h]
+
+theorem refl_sq (p : κ → Prop) [DecidablePred p] : refl p * refl p = 1 := by
   rw [refl, Matrix.diagonal_mul_diagonal]
-  ext i j; by_cases h : i = j <;> by_cases h0 : i = k0 <;> simp [Matrix.diagonal, Matrix.one_apply, h, h0]
+  ext i j; by_cases h : i = j <;> by_cases h0 : p j <;> simp [Matrix.diagonal, Matrix.one_apply, h, h0]
 
-/-- `ProjectorControlledPhaseShift.as_matrix` = `expm(1j θ (2 P₀ − 1))` is the diagonal matrix with `e^{iθ}` on the
-projection state and `e^{-iθ}` everywhere else -/
-theorem C19_pcps_matrix_def (k0 : κ) (θ : ℝ) :
-    exp ((I * (θ : ℂ)) • refl k0) = Matrix.diagonal fun k => if k = k0 then Complex.exp (I * θ) else Complex.exp (-(I * θ)) := by
-  rw [Matrix.exp_smul_of_sq_eq_one (refl k0) (refl_sq k0)]
+/-- **`ProjectorControlledPhaseShift.as_matrix`** `= expm(1j θ (2 P₀ − 1))` is the diagonal matrix with `e^{iθ}` on the
+projection state(s) and `e^{-iθ}` everywhere else — for every angle and every index type (every number of qubits) -/
+theorem C19_pcps_matrix_def (p : κ → Prop) [DecidablePred p] (θ : ℝ) :
+    exp ((I * (θ : ℂ)) • refl p) = Matrix.diagonal fun k => if p k then Complex.exp (I * θ) else Complex.exp (-(I * θ)) := by
+  rw [Matrix.exp_smul_of_sq_eq_one (refl p) (refl_sq p)]
   have hc : Complex.cosh (I * (θ : ℂ)) = Complex.cos θ := by rw [mul_comm, Complex.cosh_mul_I]
   have hs : Complex.sinh (I * (θ : ℂ)) = Complex.sin θ * I := by rw [mul_comm, Complex.sinh_mul_I]
   have e1 : Complex.exp (I * θ) = Complex.cos θ + Complex.sin θ * I := by rw [mul_comm, Complex.exp_mul_I]
@@ -36,109 +53,453 @@ theorem C19_pcps_matrix_def (k0 : κ) (θ : ℝ) :
     rw [this, Complex.exp_mul_I]; simp [Complex.cos_neg, Complex.sin_neg]; ring
   rw [hc, hs, e1, e2]
   ext i j
-  by_cases h : i = j <;> by_cases h0 : i = k0 <;> simp [refl, Matrix.diagonal, Matrix.one_apply, h, h0] <;> ring
+  by_cases h : i = j <;> by_cases h0 : p j <;> simp [refl, Matrix.diagonal, Matrix.one_apply, h, h0] <;> ring
 
-/-- `Rz(φ) = diag(e^{-iφ/2}, e^{iφ/2})` (generated definition) -/
-theorem rz_diag (φ : ℝ) : RzGate.mat φ = !![Complex.exp (-(I * (φ / 2 : ℝ))), 0; 0, Complex.exp (I * (φ / 2 : ℝ))] := by
-  simp only [RzGate.mat]
-  have e : (((1 : ℝ) : ℂ) * I) * ((φ : ℝ) : ℂ) / (((2 : ℝ) : ℝ) : ℂ) = I * ((φ / 2 : ℝ) : ℂ) := by push_cast; ring
-  rw [e]
-  have hc : starRingEnd ℂ (Complex.exp (I * ((φ / 2 : ℝ) : ℂ))) = Complex.exp (-(I * ((φ / 2 : ℝ) : ℂ))) := by
-    rw [← Complex.exp_conj]; congr 1; simp
-  rw [hc]
-  ext i j; fin_cases i <;> fin_cases j <;> simp
-
-/-- **auxiliary method**: `MCX · (1 ⊗ Rz(2θ)) · MCX` on (encoding register) × (auxiliary qubit) is diagonal – so the
-auxiliary qubit returns to the state it started in – and on the auxiliary-|0⟩ block it multiplies the projection
-state by `e^{iθ}` and every other encoding state by `e^{-iθ}`: it acts as `exp(iθ(2P₀−1))` there. -/
-theorem C19_pcps_auxiliary_correct (k0 : κ) (θ : ℝ) :
-    blockOn k0 PauliXGate.mat * blocks (fun _ : κ => RzGate.mat (2 * θ)) * blockOn k0 PauliXGate.mat =
-      blocks (fun k => if k = k0 then !![Complex.exp (I * θ), 0; 0, Complex.exp (-(I * θ))]
-                        else !![Complex.exp (-(I * θ)), 0; 0, Complex.exp (I * θ)]) := by
-  rw [blockOn_eq_blocks, blocks_mul, blocks_mul]
-  congr 1; funext k
-  rw [rz_diag]
-  have e : ((2 * θ / 2 : ℝ) : ℂ) = (θ : ℂ) := by push_cast; ring
-  rw [e]
-  by_cases h : k = k0
-  · simp only [h, if_true, PauliXGate.mat]
-    ext i j; fin_cases i <;> fin_cases j <;> simp [Matrix.mul_apply, Fin.sum_univ_two]
-  · simp only [h, if_false, Matrix.one_mul, Matrix.mul_one]
-
-/-- corollary: the auxiliary-|0⟩ diagonal entries are exactly those of `exp(iθ(2P₀−1))` (`C19_pcps_matrix_def`) -/
-theorem C19_pcps_auxiliary_block (k0 k : κ) (θ : ℝ) :
-    (blockOn k0 PauliXGate.mat * blocks (fun _ : κ => RzGate.mat (2 * θ)) * blockOn k0 PauliXGate.mat) (k, 0) (k, 0) =
-      (exp ((I * (θ : ℂ)) • refl k0)) k k ∧
-    ∀ k', (blockOn k0 PauliXGate.mat * blocks (fun _ : κ => RzGate.mat (2 * θ)) * blockOn k0 PauliXGate.mat) (k, 0) (k', 1) = 0 := by
-  rw [C19_pcps_auxiliary_correct, C19_pcps_matrix_def]
-  constructor
-  · by_cases h : k = k0 <;> simp [blocks, h]
-  · intro k'; by_cases h : k = k0 <;> by_cases h' : k = k' <;> simp [blocks, h, h']
+/-- what the executable model of `as_matrix` answers: it accepts exactly the non-empty all-zero projection states and marks
+basis state `0 = |0…0⟩` (and no other) as the one carrying `e^{+iθ}` — i.e. `p = (· = 0)` in `C19_pcps_matrix_def` -/
+theorem C19_pcps_matrix_model (proj : List Int) (d : List Bool) (h : pcpsMatrixDiag proj = .ok d) :
+    proj = List.replicate proj.length 0 ∧ proj ≠ [] ∧ d.length = 2 ^ proj.length ∧
+      ∀ k, k < 2 ^ proj.length → d[k]? = some (k == 0) := by
+  unfold pcpsMatrixDiag at h
+  split_ifs at h with h1 h2
+  have hz := all_zero_of_not_any h1
+  have hne : proj ≠ [] := by intro h'; simp [h'] at h2
+  have hb : binaryIndex proj = 0 := by
+    rw [hz]; generalize proj.length = n
+    unfold binaryIndex
+    induction n with
+    | zero => rfl
+    | succ n ih => rw [List.replicate_succ, List.foldl_cons]; simpa using ih
+  cases h
+  refine ⟨hz, hne, by simp, ?_⟩
+  intro k hk
+  simp [hk, hb]
 
 end PhaseShift
 
-/-! ### c-phase method: the cascade of controlled `Rz` with the phase correction
+/-! ### both constructions of the phase-shift circuit, on computational basis states
 
-Every gate of the c-phase circuit is diagonal. `gatePhase bits g` is the phase angle (the exponent `φ` of
-`e^{iφ}`) that gate `g` contributes on the computational basis state `bits` (encoding qubit `i` ↦ `bits i`),
-using `Rz(a) = diag(e^{-ia/2}, e^{ia/2})` (`rz_diag`) and "controlled on the first `nc` encoding qubits being 0". -/
+`circuitAct c bits = (bits', φ)` says: the circuit `c` maps the basis state `bits` (qubit label ↦ bit) to `e^{iφ}|bits'⟩`
+(`QibProofs/Lemmas/QubitizationMat.lean` turns this into matrices and relates the single gates to the generated closed
+forms `RzGate.mat`, `PauliXGate.mat`, `PhaseFactorGate.mat` and to the controlled-gate / embedding combinators of C02/C04). -/
 
-/-- the first `n` encoding qubits are all 0 -/
-def zerosBefore (bits : ℕ → Bool) (n : ℕ) : Prop := ∀ j < n, bits j = false
+/-- **auxiliary method** (multi-controlled-X / Rz(2θ) / multi-controlled-X), every number of encoding qubits, every angle,
+every placement with the auxiliary qubit different from the encoding qubits: whatever `as_circuit` returns maps every basis
+state to itself (so the auxiliary qubit returns to where it started), and with the auxiliary qubit in `|0⟩` the phase is
+`e^{iθ}` on `|0…0⟩` of the encoding qubits and `e^{-iθ}` on every other state: it acts as `exp(iθ(2P₀−1))` there. -/
+theorem C19_pcps_auxiliary_correct (p : Pcps ℝ) (c : List (GateDesc ℝ)) (hm : p.method = .auxiliary) (h : p.asCircuit = .ok c)
+    (hdisj : ∀ a ∈ p.aux.head?, a ∉ p.enc) (bits : ℕ → Bool) :
+    ∃ a, p.aux.head? = some a ∧
+      circuitAct c bits = (bits, if (bits a = false ↔ AllZero bits p.enc) then p.theta else -p.theta) ∧
+      (bits a = false → circuitAct c bits = (bits, if AllZero bits p.enc then p.theta else -p.theta)) := by
+  obtain ⟨hz, hcase⟩ := asCircuit_ok h
+  rcases hcase with ⟨_, a, rest, ha, rfl⟩ | ⟨hm', _⟩
+  · have hd : a ∉ p.enc := hdisj a (by simp [ha])
+    have key := auxCircuit_act p.theta p.enc a hd bits
+    rw [← hz] at key
+    refine ⟨a, by simp [ha], key, ?_⟩
+    intro hb
+    rw [key]; simp [hb]
+  · rw [hm] at hm'; cases hm'
 
-instance (bits : ℕ → Bool) (n : ℕ) : Decidable (zerosBefore bits n) := by unfold zerosBefore; infer_instance
+/-- **c-phase method** (Rz on the first encoding qubit, cascade of controlled-Rz with halving denominators, phase
+correction), every number `m ≥ 1` of encoding qubits, every angle, every placement: whatever `as_circuit` returns maps every
+basis state to itself with phase `e^{iθ}` on `|0…0⟩` of the encoding qubits and `e^{-iθ}` on every other state, i.e. it is
+`exp(iθ(2P₀−1))` (compare `C19_pcps_matrix_def`). -/
+theorem C19_pcps_cphase_correct (p : Pcps ℝ) (c : List (GateDesc ℝ)) (hm : p.method = .cphase) (h : p.asCircuit = .ok c)
+    (bits : ℕ → Bool) :
+    circuitAct c bits = (bits, if AllZero bits p.enc then p.theta else -p.theta) := by
+  obtain ⟨hz, hcase⟩ := asCircuit_ok h
+  rcases hcase with ⟨hm', _⟩ | ⟨_, e0, rest, he, rfl⟩
+  · rw [hm] at hm'; cases hm'
+  · have key := cphaseCircuit_act p.theta p.enc bits e0 rest he
+    rw [← hz] at key
+    exact key
 
-noncomputable def gatePhase (bits : ℕ → Bool) : GateDesc ℝ → ℝ
-  | .rz a t => if bits t then a / 2 else -(a / 2)
-  | .crz a t nc => if zerosBefore bits nc then (if bits t then a / 2 else -(a / 2)) else 0
-  | .phase φ _ => φ
-  | .mcx _ => 0
-  | .rzAux _ => 0
+/-- the constructions are total on the property's domain: an all-zero projection state of the right length, `m ≥ 1`
+encoding qubits and (for the auxiliary method) an auxiliary qubit are never refused -/
+theorem C19_pcps_asCircuit_accepts (θ : ℝ) (e0 : ℕ) (rest : List ℕ) (a : ℕ) (auxrest : List ℕ) :
+    (∃ c, (⟨θ, List.replicate (e0 :: rest).length 0, e0 :: rest, a :: auxrest, .auxiliary⟩ : Pcps ℝ).asCircuit = .ok c ∧ c.length = 3) ∧
+    (∃ c, (⟨θ, List.replicate (e0 :: rest).length 0, e0 :: rest, [], .cphase⟩ : Pcps ℝ).asCircuit = .ok c ∧
+      c.length = (e0 :: rest).length + 1) := by
+  have hany : ¬ (List.replicate (e0 :: rest).length (0 : Int)).any (· != 0) = true := by
+    simp [List.any_replicate]
+  constructor
+  · refine ⟨auxCircuit θ (List.replicate (e0 :: rest).length 0) (e0 :: rest) a, ?_, by simp [auxCircuit]⟩
+    unfold Pcps.asCircuit
+    rw [if_neg (by simp), if_neg hany]
+  · refine ⟨cphaseCircuit θ (List.replicate (e0 :: rest).length 0) (e0 :: rest) e0, ?_, by simp [cphaseCircuit]⟩
+    unfold Pcps.asCircuit
+    rw [if_neg (by simp), if_neg hany]
 
-noncomputable def circuitPhase (bits : ℕ → Bool) (c : List (GateDesc ℝ)) : ℝ := (c.map (gatePhase bits)).sum
+/-! ### both constructions as matrices on an `n`-wire register
 
-theorem pow2_eq (k : Nat) : (pow2 k : ℝ) = 2 ^ k := by
-  induction k with
-  | zero => simp [pow2]
-  | succ k ih => simp [pow2, ih, pow_succ]; ring
+Register index = bit function `Fin n → Bool`, qubit label `k` = wire `k` (labels outside the register read 0);
+`gateMat n g` = matrix of the basis-state action of the emitted gate `g`, `circuitMat n c` = the product `gₖ ⋯ g₂ g₁`
+formed by `Circuit.as_matrix` (`C05_circuitMat_eq_prod`). -/
 
-/-- **c-phase method**, for every number `m+1 ≥ 1` of encoding qubits and every angle: the circuit multiplies the
-projection state `|0…0⟩` by `e^{iθ}` and every other basis state by `e^{-iθ}`, i.e. it is `exp(iθ(2P₀−1))`
-(compare `C19_pcps_matrix_def`). -/
-theorem C19_pcps_cphase_correct (θ : ℝ) (m : Nat) (bits : ℕ → Bool) :
-    circuitPhase bits (cphaseCircuit θ (m + 1)) = if zerosBefore bits (m + 1) then θ else -θ := by
-  sorry
+/-- all encoding qubits read 0 in the register state `R` -/
+def EncZero (n : ℕ) (enc : List ℕ) (R : Fin n → Bool) : Prop := AllZero (ext n R) enc
+
+instance (n : ℕ) (enc : List ℕ) : DecidablePred (EncZero n enc) := fun R => by unfold EncZero; infer_instance
+
+theorem exp_I_mul_ite (c : Prop) [Decidable c] (θ : ℝ) :
+    Complex.exp (I * ((if c then θ else -θ : ℝ) : ℂ)) = if c then Complex.exp (I * θ) else Complex.exp (-(I * θ)) := by
+  split_ifs <;> simp
+
+/-- **c-phase method, matrix form**: on every register the circuit's matrix IS `exp(iθ(2P₀−1))`, `P₀` the projector onto
+"all encoding qubits read 0" (`|0…0⟩⟨0…0| ⊗ 1` on the other wires) — every `m ≥ 1`, every angle, every placement -/
+theorem C19_pcps_cphase_matrix (p : Pcps ℝ) (c : List (GateDesc ℝ)) (hm : p.method = .cphase) (h : p.asCircuit = .ok c) (n : ℕ) :
+    circuitMat n c = exp ((I * (p.theta : ℂ)) • refl (EncZero n p.enc)) := by
+  have hdiag : ∀ g ∈ c, g.TargetLt n := by
+    obtain ⟨_, hcase⟩ := asCircuit_ok h
+    rcases hcase with ⟨hm', _⟩ | ⟨_, e0, rest, _, rfl⟩
+    · rw [hm] at hm'; cases hm'
+    · exact fun g hg => (cphaseCircuit_isDiag _ _ _ _ g hg).targetLt n
+  rw [circuitMat_eq_actMat n c hdiag, C19_pcps_matrix_def]
+  have : circuitAct c = fun bits => (bits, if AllZero bits p.enc then p.theta else -p.theta) :=
+    funext fun bits => C19_pcps_cphase_correct p c hm h bits
+  rw [this, actMat_diag]
+  congr 1; funext R
+  exact exp_I_mul_ite _ _
+
+/-- **auxiliary method, matrix form**: on every register containing the auxiliary qubit `a` (different from the encoding
+qubits) the circuit's matrix is diagonal — no amplitude ever leaves the auxiliary-`|0⟩` block, the auxiliary qubit returns
+to `|0⟩` — and restricted to that block (`wireZero n a` = projector onto "wire `a` reads 0") it is `exp(iθ(2P₀−1))`,
+which itself does not touch the auxiliary wire -/
+theorem C19_pcps_auxiliary_matrix (p : Pcps ℝ) (c : List (GateDesc ℝ)) (hm : p.method = .auxiliary) (h : p.asCircuit = .ok c)
+    (a : ℕ) (ha : p.aux.head? = some a) (hdisj : a ∉ p.enc) (n : ℕ) (han : a < n) :
+    circuitMat n c = Matrix.diagonal (fun R => if (ext n R a = false ↔ EncZero n p.enc R) then Complex.exp (I * p.theta)
+        else Complex.exp (-(I * p.theta))) ∧
+    circuitMat n c * wireZero n a = exp ((I * (p.theta : ℂ)) • refl (EncZero n p.enc)) * wireZero n a ∧
+    exp ((I * (p.theta : ℂ)) • refl (EncZero n p.enc)) * wireZero n a
+      = wireZero n a * exp ((I * (p.theta : ℂ)) • refl (EncZero n p.enc)) := by
+  obtain ⟨a', ha', hact, _⟩ := C19_pcps_auxiliary_correct p c hm h (fun x hx => by
+    rw [ha] at hx; cases hx; exact hdisj) (fun _ => false)
+  have haa : a' = a := by rw [ha] at ha'; cases ha'; rfl
+  subst haa
+  have htl : ∀ g ∈ c, g.TargetLt n := by
+    obtain ⟨_, hcase⟩ := asCircuit_ok h
+    rcases hcase with ⟨_, a'', rest, ha'', rfl⟩ | ⟨hm', _⟩
+    · have : a'' = a' := by rw [ha''] at ha; cases ha; rfl
+      subst this
+      exact auxCircuit_targetLt _ _ _ han
+    · rw [hm] at hm'; cases hm'
+  have hall : circuitAct c = fun bits => (bits, if (bits a' = false ↔ AllZero bits p.enc) then p.theta else -p.theta) := by
+    funext bits
+    obtain ⟨a'', ha'', hact', _⟩ := C19_pcps_auxiliary_correct p c hm h (fun x hx => by
+      rw [ha] at hx; cases hx; exact hdisj) bits
+    have : a'' = a' := by rw [ha] at ha''; cases ha''; rfl
+    subst this; exact hact'
+  have hmat : circuitMat n c = Matrix.diagonal (fun R => if (ext n R a' = false ↔ EncZero n p.enc R) then Complex.exp (I * p.theta)
+        else Complex.exp (-(I * p.theta))) := by
+    rw [circuitMat_eq_actMat n c htl, hall, actMat_diag]
+    congr 1; funext R
+    exact exp_I_mul_ite _ _
+  refine ⟨hmat, ?_, ?_⟩
+  · rw [hmat, C19_pcps_matrix_def, wireZero, Matrix.diagonal_mul_diagonal, Matrix.diagonal_mul_diagonal]
+    congr 1; funext R
+    by_cases hb : ext n R a' = false
+    · simp [hb]
+    · simp [hb]
+  · rw [C19_pcps_matrix_def]; exact commute_wireZero_of_diag n a' _
 
 /-! ### eigenvalue transformation -/
 
 section EVT
 variable {M : Type} [Monoid M]
 
-/-- **the code's even/odd split and pairing loop compute the defining alternating product, for every length** -/
+/-- **the code's even/odd split, loop bounds and index arithmetic compute the defining alternating product, for every
+length** (odd and even); the empty and the missing angle list are refused with `ValueError` -/
 theorem C19_evt_eq_spec (P : ℝ → M) (U Ui : M) (θs : List ℝ) :
-    evtCode P U Ui θs = evtSpec P U Ui θs := by
-  sorry
+    evtMatrix P U Ui (some θs) = if θs = [] then .error .valueError else .ok (evtSpec P U Ui θs) := by
+  match θs with
+  | [] => simp [evtMatrix]
+  | a0 :: rest =>
+    simp only [evtMatrix, reduceCtorEq, if_false]
+    split_ifs with hpar
+    · -- even length
+      have hk : (a0 :: rest).length = 2 * ((a0 :: rest).length / 2) := by omega
+      have := evtLoop_spec P U Ui 0 ((a0 :: rest).length / 2) (a0 :: rest) [] 0 1 hk (by simp) (by omega)
+      simpa using this
+    · -- odd length
+      have hlen : (a0 :: rest).length - 1 = rest.length := by simp
+      have hk : rest.length = 2 * (((a0 :: rest).length - 1) / 2) := by
+        rw [hlen]; simp only [List.length_cons] at hpar; omega
+      have := evtLoop_spec P U Ui 1 (((a0 :: rest).length - 1) / 2) rest [a0] 1 (1 * P a0 * U) hk (by simp) (by omega)
+      have hpar' : rest.length % 2 = 0 := by simp only [List.length_cons] at hpar; omega
+      simpa [evtSpec, hpar', mul_assoc] using this
 
-/-- number of phase-shift factors and of encoding factors in the defining product -/
-def evtFactors : List ℝ → List (ℝ × Bool)
-  | [] => []
-  | a :: rest => (a, rest.length % 2 = 0) :: evtFactors rest
+theorem C19_evt_none (P : ℝ → M) (U Ui : M) : evtMatrix P U Ui none = .error .valueError := rfl
 
-/-- the defining product applies the encoding (or its inverse) exactly `len θs` times, uses every angle exactly once
-and in order, and ends with the encoding itself -/
-theorem C19_evt_uses_every_angle (θs : List ℝ) :
-    (evtFactors θs).map Prod.fst = θs ∧ (evtFactors θs).length = θs.length ∧
-    (∀ a, (evtFactors θs).getLast? = some a → a.2 = true) := by
-  sorry
+/-- the defining product written out: one factor `P θₖ · Vₖ` per angle, `Vₖ` alternating and the last one the encoding -/
+theorem C19_evtSpec_eq_prod (P : ℝ → M) (U Ui : M) (θs : List ℝ) :
+    evtSpec P U Ui θs = ((List.range θs.length).map fun k =>
+      P (θs.getD k 0) * (if (θs.length - 1 - k) % 2 = 0 then U else Ui)).prod := by
+  induction θs with
+  | nil => simp [evtSpec]
+  | cons a rest ih =>
+    rw [evtSpec, ih, List.length_cons, List.range_succ_eq_map, List.map_cons, List.prod_cons, List.map_map]
+    have h0 : (a :: rest).getD 0 0 = a := rfl
+    have e0 : (rest.length + 1 - 1 - 0) = rest.length := by omega
+    rw [h0, e0]
+    congr 2
+    apply List.map_congr_left
+    intro k hk
+    have e : rest.length + 1 - 1 - (k + 1) = rest.length - 1 - k := by omega
+    simp only [Function.comp, Nat.succ_eq_add_one, e, List.getD_cons_succ]
 
-theorem C19_evtSpec_factors (P : ℝ → M) (U Ui : M) (θs : List ℝ) :
-    evtSpec P U Ui θs = ((evtFactors θs).map fun p => P p.1 * (if p.2 then U else Ui)).prod := by
-  sorry
+/-- letters of the free monoid: `inl θ` = the phase shift by `θ`, `inr true` = the encoding, `inr false` = its inverse -/
+abbrev Letter := ℝ ⊕ Bool
+
+/-- the product in the free monoid: the *word* the loop writes down, before any matrix is substituted -/
+def evtWord (θs : List ℝ) : FreeMonoid Letter :=
+  evtSpec (fun a => FreeMonoid.of (Sum.inl a)) (FreeMonoid.of (Sum.inr true)) (FreeMonoid.of (Sum.inr false)) θs
+
+theorem evtWord_cons (a : ℝ) (rest : List ℝ) :
+    (evtWord (a :: rest)).toList = Sum.inl a :: Sum.inr (decide (rest.length % 2 = 0)) :: (evtWord rest).toList := by
+  unfold evtWord
+  rw [evtSpec]
+  by_cases h : rest.length % 2 = 0 <;> simp [h, FreeMonoid.toList_mul, FreeMonoid.toList_of]
+
+/-- **every angle is used, the encoding is applied exactly `len(angles)` times**: run in the free monoid (no relations
+between phase shifts and encodings) the code's loop returns a word that lists every angle exactly once and in order,
+contains exactly `len θs` encoding letters, ends with the encoding itself, and from which every concrete result of
+`as_matrix` is obtained by substituting matrices for letters. In particular the word — hence the matrix, as a function of
+what is substituted — depends on every single angle (`C19_evt_word_injective`). -/
+theorem C19_evt_uses_every_angle (θs : List ℝ) (hne : θs ≠ []) :
+    evtMatrix (fun a => FreeMonoid.of (Sum.inl a : Letter)) (FreeMonoid.of (Sum.inr true)) (FreeMonoid.of (Sum.inr false)) (some θs)
+        = .ok (evtWord θs) ∧
+    (evtWord θs).toList.filterMap Sum.getLeft? = θs ∧
+    ((evtWord θs).toList.filter Sum.isRight).length = θs.length ∧
+    (evtWord θs).toList.getLast? = some (Sum.inr true) ∧
+    ∀ (P : ℝ → M) (U Ui : M), evtMatrix P U Ui (some θs)
+        = .ok (FreeMonoid.lift (Sum.elim P fun b => if b then U else Ui) (evtWord θs)) := by
+  refine ⟨by rw [C19_evt_eq_spec, if_neg hne]; rfl, ?_, ?_, ?_, ?_⟩
+  · clear hne
+    induction θs with
+    | nil => simp [evtWord, evtSpec]
+    | cons a rest ih =>
+      rw [evtWord_cons, List.filterMap_cons_some (by rfl : Sum.getLeft? (Sum.inl a : Letter) = some a),
+        List.filterMap_cons_none (by rfl), ih]
+  · clear hne
+    induction θs with
+    | nil => simp [evtWord, evtSpec]
+    | cons a rest ih =>
+      rw [evtWord_cons, List.filter_cons_of_neg (by simp), List.filter_cons_of_pos (by simp), List.length_cons, ih, List.length_cons]
+  · induction θs with
+    | nil => exact absurd rfl hne
+    | cons a rest ih =>
+      rw [evtWord_cons]
+      by_cases hr : rest = []
+      · subst hr; simp [evtWord, evtSpec]
+      · have := ih hr
+        have e : (Sum.inl a : Letter) :: Sum.inr (decide (rest.length % 2 = 0)) :: (evtWord rest).toList
+            = [Sum.inl a, Sum.inr (decide (rest.length % 2 = 0))] ++ (evtWord rest).toList := rfl
+        rw [e, List.getLast?_append, this]; rfl
+  · intro P U Ui
+    rw [C19_evt_eq_spec, if_neg hne]
+    congr 1
+    clear hne
+    induction θs with
+    | nil => simp [evtWord, evtSpec]
+    | cons a rest ih =>
+      unfold evtWord at ih ⊢
+      rw [evtSpec, evtSpec, map_mul, map_mul, ← ih]
+      by_cases h : rest.length % 2 = 0 <;> simp [h]
+
+/-- different angle sequences give different words: changing, dropping or adding any single angle changes the product -/
+theorem C19_evt_word_injective (θs θs' : List ℝ) (h : evtWord θs = evtWord θs') : θs = θs' := by
+  have key : ∀ l : List ℝ, (evtWord l).toList.filterMap Sum.getLeft? = l := by
+    intro l
+    induction l with
+    | nil => simp [evtWord, evtSpec]
+    | cons a rest ih =>
+      rw [evtWord_cons, List.filterMap_cons_some (by rfl : Sum.getLeft? (Sum.inl a : Letter) = some a),
+        List.filterMap_cons_none (by rfl), ih]
+  rw [← key θs, ← key θs', h]
+
+/-- **`as_circuit` runs the same alternating product as `as_matrix`**: for every interpretation `den` of the circuit's entries
+in a monoid (first gate applied first, i.e. `Circuit.as_matrix`'s fold, C05), the circuit built by the prepend loop denotes
+the defining product with `P θ` := denotation of the processing circuit for `θ`, `U` := `den enc`, `U⁻¹` := `den encInv`. -/
+theorem C19_evt_circuit_eq_spec (pc : Pcps ℝ) (encAux : List ℕ) (θs : List ℝ) (items : List (EvtItem ℝ)) (den : EvtItem ℝ → M)
+    (h : evtCircuit pc encAux (some θs) = .ok items) :
+    circuitDen den items = evtSpec (subDen pc den) (den .enc) (den .encInv) θs := by
+  unfold evtCircuit at h
+  split_ifs at h with hq
+  match θs, h with
+  | a0 :: rest, h =>
+    simp only at h
+    split_ifs at h with hpar
+    · have hk : (a0 :: rest).length = 2 * ((a0 :: rest).length / 2) := by omega
+      have := evtCircuitLoop_spec pc den ((a0 :: rest).length / 2) (a0 :: rest) [] 0 0 [] items hk (by simp) (by omega)
+        (by simpa using h)
+      simpa [circuitDen_nil] using this
+    · cases h0 : evtPrepend pc a0 .enc [] with
+      | error e => simp [h0] at h
+      | ok c0 =>
+        simp only [h0] at h
+        have hlen : (a0 :: rest).length - 1 = rest.length := by simp
+        have hk : rest.length = 2 * (((a0 :: rest).length - 1) / 2) := by
+          rw [hlen]; simp only [List.length_cons] at hpar; omega
+        have := evtCircuitLoop_spec pc den (((a0 :: rest).length - 1) / 2) rest [a0] 1 1 c0 items hk (by simp) (by omega)
+          (by simpa using h)
+        have hpar' : rest.length % 2 = 0 := by simp only [List.length_cons] at hpar; omega
+        rw [this, evtPrepend_den pc den h0, circuitDen_nil, evtSpec, if_pos hpar']
+        simp [mul_assoc]
+
+/-- what `as_circuit` refuses: differing encoding qubits (`RuntimeError`, checked first), no angles (`ValueError`) -/
+theorem C19_evt_circuit_rejects (pc : Pcps ℝ) (encAux : List ℕ) :
+    (encAux ≠ pc.enc → ∀ θs, evtCircuit pc encAux θs = .error .runtimeError) ∧
+    evtCircuit pc pc.enc none = .error .valueError ∧ evtCircuit pc pc.enc (some []) = .error .valueError := by
+  refine ⟨fun h θs => by simp [evtCircuit, h], by simp [evtCircuit], by simp [evtCircuit]⟩
+
+/-- **the circuit's matrix on the auxiliary-`|0⟩` block is the eigenvalue-transformation matrix.**
+Abstractly: let `p` be the projector onto "auxiliary qubit = `|0⟩`" (any element of the monoid), let every processing circuit
+act on the range of `p` like the phase shift (`C θ * p = P θ * p`, which is `C19_pcps_auxiliary_correct` resp.
+`C19_pcps_cphase_correct`), and let the phase shifts and the encoding not touch the auxiliary qubit (they commute with `p`).
+Then the whole circuit, restricted to the auxiliary-`|0⟩` block, is the alternating product of the phase shifts and the
+encoding — the value of `as_matrix` (`C19_evt_eq_spec`) — for every number of angles. -/
+theorem C19_evt_circuit_block (pc : Pcps ℝ) (encAux : List ℕ) (θs : List ℝ) (items : List (EvtItem ℝ)) (den : EvtItem ℝ → M)
+    (h : evtCircuit pc encAux (some θs) = .ok items) (p : M) (P : ℝ → M)
+    (hC : ∀ θ, subDen pc den θ * p = P θ * p) (hP : ∀ θ, P θ * p = p * P θ)
+    (hU : den .enc * p = p * den .enc) (hUi : den .encInv * p = p * den .encInv) :
+    circuitDen den items * p = evtSpec P (den .enc) (den .encInv) θs * p ∧
+    evtMatrix P (den .enc) (den .encInv) (some θs) = .ok (evtSpec P (den .enc) (den .encInv) θs) := by
+  have hne : θs ≠ [] := by
+    intro h0; subst h0
+    unfold evtCircuit at h
+    split_ifs at h
+  refine ⟨?_, by rw [C19_evt_eq_spec, if_neg hne]⟩
+  rw [C19_evt_circuit_eq_spec pc encAux θs items den h]
+  clear h hne
+  -- the defining product commutes with `p`, and the two products agree in front of `p`
+  have hcomm : ∀ l : List ℝ, evtSpec P (den .enc) (den .encInv) l * p = p * evtSpec P (den .enc) (den .encInv) l := by
+    intro l
+    induction l with
+    | nil => simp [evtSpec]
+    | cons a rest ih =>
+      rw [evtSpec]
+      have hV : (if rest.length % 2 = 0 then den .enc else den .encInv) * p
+          = p * (if rest.length % 2 = 0 then den .enc else den .encInv) := by split_ifs <;> assumption
+      calc P a * (if rest.length % 2 = 0 then den .enc else den .encInv) * evtSpec P (den .enc) (den .encInv) rest * p
+          = P a * (if rest.length % 2 = 0 then den .enc else den .encInv) * (evtSpec P (den .enc) (den .encInv) rest * p) := by
+            simp only [mul_assoc]
+        _ = P a * ((if rest.length % 2 = 0 then den .enc else den .encInv) * p) * evtSpec P (den .enc) (den .encInv) rest := by
+            rw [ih]; simp only [mul_assoc]
+        _ = (P a * p) * (if rest.length % 2 = 0 then den .enc else den .encInv) * evtSpec P (den .enc) (den .encInv) rest := by
+            rw [hV]; simp only [mul_assoc]
+        _ = p * (P a * (if rest.length % 2 = 0 then den .enc else den .encInv) * evtSpec P (den .enc) (den .encInv) rest) := by
+            rw [hP]; simp only [mul_assoc]
+  induction θs with
+  | nil => simp [evtSpec]
+  | cons a rest ih =>
+    rw [evtSpec, evtSpec]
+    have hV : (if rest.length % 2 = 0 then den .enc else den .encInv) * p
+        = p * (if rest.length % 2 = 0 then den .enc else den .encInv) := by split_ifs <;> assumption
+    calc subDen pc den a * (if rest.length % 2 = 0 then den .enc else den .encInv) * evtSpec (subDen pc den) (den .enc) (den .encInv) rest * p
+        = subDen pc den a * (if rest.length % 2 = 0 then den .enc else den .encInv) * (evtSpec (subDen pc den) (den .enc) (den .encInv) rest * p) := by
+          simp only [mul_assoc]
+      _ = subDen pc den a * ((if rest.length % 2 = 0 then den .enc else den .encInv) * p) * evtSpec P (den .enc) (den .encInv) rest := by
+          rw [ih, hcomm rest]; simp only [mul_assoc]
+      _ = (subDen pc den a * p) * (if rest.length % 2 = 0 then den .enc else den .encInv) * evtSpec P (den .enc) (den .encInv) rest := by
+          rw [hV]; simp only [mul_assoc]
+      _ = P a * (p * (if rest.length % 2 = 0 then den .enc else den .encInv)) * evtSpec P (den .enc) (den .encInv) rest := by
+          rw [hC]; simp only [mul_assoc]
+      _ = P a * (if rest.length % 2 = 0 then den .enc else den .encInv) * (p * evtSpec P (den .enc) (den .encInv) rest) := by
+          rw [← hV]; simp only [mul_assoc]
+      _ = P a * (if rest.length % 2 = 0 then den .enc else den .encInv) * evtSpec P (den .enc) (den .encInv) rest * p := by
+          rw [← hcomm rest]; simp only [mul_assoc]
 
 end EVT
 
-/-- non-vacuity: three angles give `P a U · P b U† · P c U` -/
-example (P : ℝ → ℕ) : evtCode P 2 3 [0, 1, 2] = 1 * P 0 * 2 * P 1 * 3 * P 2 * 2 := by
-  simp [evtCode, evtPairs]
+/-! ### the eigenvalue-transformation circuit as a matrix on an `n`-wire register -/
+
+/-- the processing gate's parameters other than the angle are those of `pc`, whatever angle was set -/
+theorem setTheta_fields (pc : Pcps ℝ) (θ : ℝ) :
+    (pc.setTheta θ).theta = θ ∧ (pc.setTheta θ).enc = pc.enc ∧ (pc.setTheta θ).aux = pc.aux ∧ (pc.setTheta θ).method = pc.method :=
+  ⟨rfl, rfl, rfl, rfl⟩
+
+/-- **c-phase processing: the circuit's matrix IS the eigenvalue-transformation matrix**, on every register, for every
+angle sequence and arbitrary matrices `U`, `Ui` standing for the block encoding and its `inverse()`:
+`Circuit.as_matrix` of `as_circuit()` = the alternating product of `exp(iθₖ(2P₀−1))` with `U`/`Ui` = `as_matrix()`
+(`C19_evt_eq_spec` with `P θ = exp(iθ(2P₀−1))`). -/
+theorem C19_evt_circuit_matrix_cphase (pc : Pcps ℝ) (encAux : List ℕ) (θs : List ℝ) (items : List (EvtItem ℝ))
+    (hm : pc.method = .cphase) (h : evtCircuit pc encAux (some θs) = .ok items) (n : ℕ)
+    (U Ui : Matrix (Fin n → Bool) (Fin n → Bool) ℂ) :
+    circuitDen (evtDen n U Ui) items = evtSpec (fun θ : ℝ => exp ((I * (θ : ℂ)) • refl (EncZero n pc.enc))) U Ui θs ∧
+    evtMatrix (fun θ : ℝ => exp ((I * (θ : ℂ)) • refl (EncZero n pc.enc))) U Ui (some θs) = .ok (circuitDen (evtDen n U Ui) items) := by
+  obtain ⟨θ0, c0, h0⟩ := evtCircuit_ok_asCircuit h
+  have hsub : ∀ θ, subDen pc (evtDen n U Ui) θ = exp ((I * (θ : ℂ)) • refl (EncZero n pc.enc)) := by
+    intro θ
+    rw [subDen_evtDen]
+    exact C19_pcps_cphase_matrix (pc.setTheta θ) (pcGates pc θ) hm (pcGates_ok h0 θ) n
+  have key := C19_evt_circuit_block pc encAux θs items (evtDen n U Ui) h 1
+    (fun θ : ℝ => exp ((I * (θ : ℂ)) • refl (EncZero n pc.enc))) (fun θ => by rw [hsub]) (fun θ => by simp) (by simp) (by simp)
+  simp only [mul_one] at key
+  have k2 := key.2
+  rw [← key.1] at k2
+  exact ⟨key.1, k2⟩
+
+/-- **auxiliary processing: the circuit's matrix on the auxiliary-`|0⟩` block is the eigenvalue-transformation matrix**, on
+every register containing the auxiliary qubit `a` (not an encoding qubit), for every angle sequence and all matrices `U`, `Ui`
+(block encoding and its `inverse()`) that do not touch the auxiliary wire: with `Π₀ = wireZero n a`,
+`circuit · Π₀ = (alternating product of exp(iθₖ(2P₀−1)) with U/Ui) · Π₀ = as_matrix() · Π₀`. -/
+theorem C19_evt_circuit_matrix_auxiliary (pc : Pcps ℝ) (encAux : List ℕ) (θs : List ℝ) (items : List (EvtItem ℝ))
+    (hm : pc.method = .auxiliary) (h : evtCircuit pc encAux (some θs) = .ok items)
+    (a : ℕ) (ha : pc.aux.head? = some a) (hdisj : a ∉ pc.enc) (n : ℕ) (han : a < n)
+    (U Ui : Matrix (Fin n → Bool) (Fin n → Bool) ℂ)
+    (hU : U * wireZero n a = wireZero n a * U) (hUi : Ui * wireZero n a = wireZero n a * Ui) :
+    circuitDen (evtDen n U Ui) items * wireZero n a
+      = evtSpec (fun θ : ℝ => exp ((I * (θ : ℂ)) • refl (EncZero n pc.enc))) U Ui θs * wireZero n a ∧
+    evtMatrix (fun θ : ℝ => exp ((I * (θ : ℂ)) • refl (EncZero n pc.enc))) U Ui (some θs)
+      = .ok (evtSpec (fun θ : ℝ => exp ((I * (θ : ℂ)) • refl (EncZero n pc.enc))) U Ui θs) := by
+  obtain ⟨θ0, c0, h0⟩ := evtCircuit_ok_asCircuit h
+  have hp := fun θ => C19_pcps_auxiliary_matrix (pc.setTheta θ) (pcGates pc θ) hm (pcGates_ok h0 θ) a ha hdisj n han
+  exact C19_evt_circuit_block pc encAux θs items (evtDen n U Ui) h (wireZero n a)
+    (fun θ : ℝ => exp ((I * (θ : ℂ)) • refl (EncZero n pc.enc)))
+    (fun θ => by rw [subDen_evtDen]; exact (hp θ).2.1) (fun θ => (hp θ).2.2) hU hUi
+
+/-! ### the emitted gates' actions are those of the generated closed forms -/
+
+/-- `Rz(a)` (definition regenerated from `gates.py`) multiplies `|b⟩` by `e^{i·rzPhase a b}` -/
+theorem C19_rz_generated (a : ℝ) :
+    RzGate.mat a = !![Complex.exp (I * (rzPhase a false : ℝ)), 0; 0, Complex.exp (I * (rzPhase a true : ℝ))] := by
+  simp only [RzGate.mat, rzPhase]
+  have e : (((1 : ℝ) : ℂ) * I) * ((a : ℝ) : ℂ) / (((2 : ℝ) : ℝ) : ℂ) = I * ((a / 2 : ℝ) : ℂ) := by push_cast; ring
+  rw [e]
+  have hc : starRingEnd ℂ (Complex.exp (I * ((a / 2 : ℝ) : ℂ))) = Complex.exp (I * ((-(a / 2) : ℝ) : ℂ)) := by
+    rw [← Complex.exp_conj]; congr 1
+    rw [map_mul, Complex.conj_I, Complex.conj_ofReal]; push_cast; ring
+  rw [hc]
+  ext i j; fin_cases i <;> fin_cases j <;> simp
+
+/-- `X` (generated) flips the bit, the phase factor gate (generated) multiplies every state by `e^{iφ}` -/
+theorem C19_x_phase_generated (φ : ℝ) (k : ℕ) :
+    PauliXGate.mat = !![0, 1; 1, 0] ∧ PhaseFactorGate.mat φ k = Complex.exp (I * φ) • 1 := by
+  constructor
+  · simp only [PauliXGate.mat]; ext i j; fin_cases i <;> fin_cases j <;> simp
+  · simp only [PhaseFactorGate.mat]; congr 1; simp
+
+/-! ### non-vacuity -/
+
+/-- three angles give `P a U · P b U⁻¹ · P c U` (the repaired odd-length loop; the unrepaired code returned `P a U`) -/
+example (P : ℝ → FreeMonoid ℕ) (U Ui : FreeMonoid ℕ) :
+    evtMatrix P U Ui (some [0, 1, 2]) = .ok (1 * P 0 * U * P 1 * Ui * P 2 * U) := by
+  simp [evtMatrix, evtLoop, evtBody]
+
+/-- two encoding qubits 5, 7, c-phase: the circuit has 3 gates and the state `|00⟩` collects `θ` -/
+example : ∃ c, (⟨0.5, [0, 0], [5, 7], [], .cphase⟩ : Pcps ℝ).asCircuit = .ok c ∧ c.length = 3 ∧
+    circuitAct c (fun _ => false) = (fun _ => false, 0.5) := by
+  obtain ⟨⟨_, _⟩, ⟨c, hc, hl⟩⟩ := C19_pcps_asCircuit_accepts 0.5 5 [7] 0 []
+  refine ⟨c, hc, by simpa using hl, ?_⟩
+  rw [C19_pcps_cphase_correct _ c rfl hc]
+  simp [AllZero]
+
+/-- auxiliary method with auxiliary qubit 0 and encoding qubits 1, 2: hypotheses of `C19_pcps_auxiliary_correct` hold -/
+example : ∃ c, (⟨0.5, [0, 0], [1, 2], [0], .auxiliary⟩ : Pcps ℝ).asCircuit = .ok c ∧
+    (∀ a ∈ ([0] : List ℕ).head?, a ∉ ([1, 2] : List ℕ)) := by
+  obtain ⟨⟨c, hc, _⟩, _⟩ := C19_pcps_asCircuit_accepts 0.5 1 [2] 0 []
+  exact ⟨c, hc, by simp⟩
 
 end Qib.C19
